@@ -35,7 +35,7 @@ var c11Inputs = []c11Input{
 // and reading stops soon after a lexical failure.
 func C11_Script() {
 	in := c11Inputs[verif.Choice("input", 7)]
-	k := verif.Choice("reads", 3+verif.Tier())
+	k := verif.Choice("reads", 3)
 	var script []symio.Step
 	for i := 0; i < k; i++ {
 		sizes := []int{0, 1, 1000}
